@@ -411,9 +411,12 @@ def minimise(prop_mod, spec, oracle, budget=300, wall=60.0):
 
 
 def write_replay(prop, spec, viol, digest, extra=None):
-    os.makedirs(os.path.join(VERIF_DIR, "replays"), exist_ok=True)
+    # VERIF_REPLAY_DIR / VERIF_EVIDENCE_DIR redirect the output of self-test and seeded-change evaluations so that
+    # they never touch the committed evidence and can run in parallel; registered commands do not set them
+    rdir = os.environ.get("VERIF_REPLAY_DIR") or os.path.join(VERIF_DIR, "replays")
+    os.makedirs(rdir, exist_ok=True)
     name = f"{prop}-{master_seed()}-{spec.get('kind', 'run')}{spec.get('i', 0)}.json"
-    path = os.path.join(VERIF_DIR, "replays", name)
+    path = os.path.join(rdir, name)
     doc = {
         "property": prop,
         "master_seed": master_seed(),
@@ -435,7 +438,8 @@ def write_replay(prop, spec, viol, digest, extra=None):
 # evidence
 # --------------------------------------------------------------------------
 def write_evidence(prop, tier, coverage, wall_s, violations, assumptions, level="exploration"):
-    os.makedirs(os.path.join(VERIF_DIR, "evidence"), exist_ok=True)
+    edir = os.environ.get("VERIF_EVIDENCE_DIR") or os.path.join(VERIF_DIR, "evidence")
+    os.makedirs(edir, exist_ok=True)
     doc = {
         "property_id": prop,
         "tier": tier,
@@ -446,7 +450,7 @@ def write_evidence(prop, tier, coverage, wall_s, violations, assumptions, level=
         "wall_s": round(wall_s, 3),
         "violations": violations,
     }
-    path = os.path.join(VERIF_DIR, "evidence", f"{prop}.json")
+    path = os.path.join(edir, f"{prop}.json")
     tmp = path + ".tmp"
     with open(tmp, "w") as f:
         json.dump(doc, f, indent=1, sort_keys=True)
